@@ -33,7 +33,8 @@ class C04(Check):
     title = "Object -> DAO -> object round trip preserves structure, types and aliasing"
     rule = (
         "Hypothesis draws a model (documented modelling rules plus a class persisted through a lossless alternative "
-        "mapping and a value persisted through a lossless custom column type) and, per model, several object graphs "
+        "mapping, a dataclass persisted through an alternative mapping together with a normally mapped subclass of it, "
+        "and a value persisted through a lossless custom column type) and, per model, several object graphs "
         "of 1-8 nodes with references by index, so sharing, back references, self loops and cycles are drawn "
         "directly; None for optional fields, empty collections, subclass instances in base-typed fields, "
         "alternatively-mapped objects in collections (also aliased) and below inherited DAOs; 1-3 roots converted "
@@ -79,6 +80,10 @@ class C04(Check):
                 classes_.add(f"shared{min(stats['shared'], 3)}")
                 if any(nd["c"] == "Vec" for nd in graph["nodes"]):
                     classes_.add("alternative_mapping")
+                if any(nd["c"] == "Title" for nd in graph["nodes"]):
+                    classes_.add("subclass_of_alternatively_mapped_class")
+                if stats["shared_title"]:
+                    classes_.add("shared_subclass_of_alternatively_mapped_class")
                 objs = G.build_graph(model, graph, layer.mod, layer.clss)
                 roots = [objs[i] for i in graph["roots"]]
                 try:
